@@ -229,11 +229,30 @@ def run_tls_front(case: Dict[str, Any]) -> Dict[str, Any]:
             viol.append({'key': feat + '|descriptor-count-grows-under-repetition', 'detail': {'counts': counts}})
         obs['tls_front_histories'] = 1
     except LoopDied as e:
-        viol.append({'key': '%s|loop-died:%s' % (feat, e.where()), 'detail': {'adversary': adv, 'tb': e.tb[-1200:]}})
+        if e.where() == 'STALL@wrap_socket' and adv['hello'] == 'garbage' and _reads_as_long_record(hello):
+            # not garbage to OpenSSL: the first bytes announce a record longer than what was sent, the (blocking) handshake waits
+            # for the rest - the mechanism of the C05 known finding, keyed by mechanism, not by the bytes that happened to do it
+            viol.append({'key': 'tls-front|incomplete-record-then-silence|loop-died:STALL@wrap_socket',
+                         'detail': {'adversary': adv, 'first_bytes': hello[:8].hex(), 'mode': mode, 'tb': e.tb[-600:]}})
+        else:
+            viol.append({'key': '%s|loop-died:%s' % (feat, e.where()), 'detail': {'adversary': adv, 'tb': e.tb[-1200:]}})
     finally:
         rig.close()
     obs.update({'class:tls-front': 1, 'mode:' + mode: 1, 'histories_with_clean_ledger': 0 if viol else 1})
     return {'viol': viol[:3], 'nontrivial': True, 'sig': 'tls/%s/%s/%s' % (adv['hello'], mode, case.get('reps')), 'obs': obs, 'sample': {'case': case}}
+
+
+def _reads_as_long_record(first: bytes) -> bool:
+    """True when the bytes start like a TLS record (any type, version 3.x) or an SSLv2 ClientHello whose announced length exceeds
+    what was sent - input OpenSSL does not reject but waits on."""
+    if len(first) < 5:
+        return True
+    if first[1] == 0x03:
+        # record header: type (not looked at before the whole record is in), version major 3, 16-bit length
+        return int.from_bytes(first[3:5], 'big') + 5 > len(first)
+    if first[0] & 0x80 and first[2] == 0x01:
+        return (((first[0] & 0x7f) << 8) | first[1]) + 2 > len(first)
+    return False
 
 
 def run_case(case: Dict[str, Any]) -> Dict[str, Any]:
